@@ -278,6 +278,10 @@ package nbhttp
 //@ ghost local Parser.gCache : Int
 //@ ghost local Parser.gUp : Bool
 //@ ghost local Parser.gSrcH : Int
+//@ ghost local Parser.gCLparsed : Bool
+//@ ghost local Parser.gCLerr : Bool
+//@ ghost local Parser.gCLval : Int
+//@ ghost local Parser.gCLabsent : Bool
 //@ ghost local Parser.gCsErr : Bool
 //@ ghost local Parser.gRow : (Array Int Int)
 //@ pred ParseCache(p *Parser, offset int, n int, cache0 *[]byte, n0 int, rl0 int) := (cache0 != nil ==> p.bytesCached == cache0 || !liveP[cache0]) && (offset == 0 ==> p.bytesCached == nil && n == n0) && (offset > 0 ==> p.bytesCached != nil && len(*p.bytesCached) == n && (rl0 > 0 ==> n <= rl0)) && p.Engine.ReadLimit == rl0
@@ -307,15 +311,31 @@ package nbhttp
 //@   ensures bad: result1 != nil ==> result0 == -1
 //@   assigns allocates
 //@ func (*Parser).parseTransferEncoding
-//@   props C08
+//@   props C08 C07
 //@   safety index slice nil div assert panic make
 //@   ensures result == nil ==> (p.chunked || p.chunked == old(p.chunked))
+//@   note only a single "chunked" (any case, optional whitespace around it) is accepted (C08): a repeated header, several values, or any other coding is an error, not a guess
+//@   ensures repeated: old(p.header != nil && has(p.header, "Transfer-Encoding") && len(p.header["Transfer-Encoding"]) != 1) ==> result != nil   // prop C08
+//@   ensures unsupported: old(p.header != nil && has(p.header, "Transfer-Encoding") && len(p.header["Transfer-Encoding"]) == 1 && lower(trimows(p.header["Transfer-Encoding"][0])) != "chunked") ==> result != nil   // prop C08
+//@   ensures chunked: old(p.header != nil && has(p.header, "Transfer-Encoding")) && result == nil ==> p.chunked && !has(p.header, "Content-Length")   // prop C08 C07
+//@   ensures absent: !old(p.header != nil && has(p.header, "Transfer-Encoding")) ==> result == nil && p.chunked == old(p.chunked)   // prop C08 C07
 //@   assigns p.chunked, allmaps("string", "[]string"), allocates
 //@ func (*Parser).parseContentLength
 //@   props C08
 //@   safety index slice nil div assert panic make
 //@   ensures range: result == nil ==> p.contentLength >= -1                                                           // prop C08
-//@   assigns p.contentLength, allocates
+//@   note a declared length is stored only if strconv.ParseInt accepts the value (trailing spaces cut) and it is not negative; it is an error next to a chunked coding (C08)
+//@   ensures nonnumeric: p.gCLparsed && p.gCLerr ==> result != nil   // prop C08
+//@   ensures negative: p.gCLparsed && !p.gCLerr && p.gCLval < 0 ==> result != nil   // prop C08
+//@   ensures stored: p.gCLparsed && result == nil ==> p.contentLength == p.gCLval   // prop C08 C07
+//@   ensures conflict: old(p.chunked) && !p.gCLabsent ==> result != nil   // prop C08
+//@   ensures parsed: !old(p.chunked) && !p.gCLabsent ==> p.gCLparsed   // prop C08
+//@   ensures none: p.gCLabsent ==> result == nil && p.contentLength == -1   // prop C08 C07
+//@   assigns p.contentLength, p.gCLparsed, p.gCLerr, p.gCLval, p.gCLabsent, allocates
+//@   at entry ghost { p.gCLparsed = false; p.gCLerr = false; p.gCLval = 0; p.gCLabsent = false }
+//@   at call:Get#1 ghost { p.gCLabsent = result == "" }
+//@   at before:ParseInt#1 assert decimal: arg_base == 10   // prop C08
+//@   at call:ParseInt#1 ghost { p.gCLparsed = true; p.gCLerr = result1 != nil; p.gCLval = result0 }
 //@   loop 1
 //@     invariant -1 <= i && i < len(cl)
 //@ func (*Parser).parseTrailer
